@@ -33,7 +33,8 @@ LEAN = dict(
         "open_r_pure", "open_r_refuses_patching", "open_rplus_continues", "open_rplus_new_patch",
         "open_a_creates_when_absent", "open_w_replaces", "open_x_refuses_existing", "open_x_creates_when_absent",
         "open_missing_r_fails", "sortByIdx_perm_invariant", "open_accepts_any_order", "open_yields_coherent",
-        "reopen_same_view", "discard_returns_to_commit", "findFiles_exact", "findFiles_disjoint"]],
+        "reopen_same_view", "coherent_along_histories", "reopen_same_view_history", "discard_returns_to_commit",
+        "findFiles_exact", "findFiles_disjoint"]],
     drivers=["drv_rec"],
 )
 
@@ -442,9 +443,15 @@ def signature(case, detail):
     return "%s:%s" % (ID, str(detail)[:40])
 
 
+_shrunk = set()
+
+
 def shrink(ctx, case, detail):
     from .. import pool
     want = detail.get("kind") if isinstance(detail, dict) else None
+    if want in _shrunk:  # one minimised witness per kind of violation is reported
+        return case, detail
+    _shrunk.add(want)
     if case.get("kind") == "find":
         def fails(listing):
             r = pool.run_one(MOD, "impl", dict(case, listing=listing), timeout=60)
